@@ -380,13 +380,13 @@ class OdeCtx(VerifContext):
                  ("n_eqns >= 1 and n_spec == N_SPEC and n_eqns >= n_spec and n_eqns <= n_spec + 1", ())]
         L[(Q, "idx, reac")] = LoopSpec("ratemod/reactions", "_i", [
             ("length(rateeqns) == N_REAC", ()),
-            ("forall(lambda i: implies(0 <= i and i < N_REAC, stmt_target(rateeqns, i) == i))", C13),
+            ("forall(lambda i: implies(0 <= i and i < N_REAC, stmt_target(rateeqns, i) == i))", C13 + C03 + C01),
             ("forall(lambda i: implies(0 <= i and i < _i and LM(i, N_MOD) >= 0, stmt_value(rateeqns, i) == user_val(LM(i, N_MOD)) and stmt_guard(rateeqns, i)))", C13),
             ("forall(lambda i: implies((0 <= i and i < _i and LM(i, N_MOD) < 0) or (_i <= i and i < N_REAC), stmt_value(rateeqns, i) == rate_orig('k', i) and stmt_guard(rateeqns, i) == win_orig('k', i)))", C13),
         ])
         L[(Q, "key, value")] = LoopSpec("ratemod/keys", "_j", [
             ("length(rateeqns) == N_REAC", ()),
-            ("forall(lambda i: implies(0 <= i and i < N_REAC, stmt_target(rateeqns, i) == i))", C13),
+            ("forall(lambda i: implies(0 <= i and i < N_REAC, stmt_target(rateeqns, i) == i))", C13 + C03 + C01),
             ("forall(lambda i: implies(0 <= i and i < idx and LM(i, N_MOD) >= 0, stmt_value(rateeqns, i) == user_val(LM(i, N_MOD)) and stmt_guard(rateeqns, i)))", C13),
             ("forall(lambda i: implies((0 <= i and i < idx and LM(i, N_MOD) < 0) or (idx < i and i < N_REAC), stmt_value(rateeqns, i) == rate_orig('k', i) and stmt_guard(rateeqns, i) == win_orig('k', i)))", C13),
             ("implies(LM(idx, _j) >= 0, stmt_value(rateeqns, idx) == user_val(LM(idx, _j)) and stmt_guard(rateeqns, idx))", C13),
@@ -462,7 +462,7 @@ class OdeCtx(VerifContext):
     # ------------------------------------------------------------ postconditions (from the property statements)
     POST = [
         # C13 / C06: rate statements
-        ("rate/targets", ("C13",), "forall(lambda i: implies(0 <= i and i < N_REAC, stmt_target(result.rateeqns, i) == i))"),
+        ("rate/targets", ("C13", "C03", "C01"), "forall(lambda i: implies(0 <= i and i < N_REAC, stmt_target(result.rateeqns, i) == i))"),
         ("rate/overridden", ("C13",), "forall(lambda i: implies(0 <= i and i < N_REAC and LM(i, N_MOD) >= 0, stmt_value(result.rateeqns, i) == user_val(LM(i, N_MOD)) and stmt_guard(result.rateeqns, i)))"),
         ("rate/untouched", ("C13",), "forall(lambda i: implies(0 <= i and i < N_REAC and LM(i, N_MOD) < 0, stmt_value(result.rateeqns, i) == rate_orig('k', i) and stmt_guard(result.rateeqns, i) == win_orig('k', i)))"),
         ("rate/length", ("C13", "C03"), "length(result.rateeqns) == N_REAC and length(result.hrateeqns) == N_HEAT and length(result.crateeqns) == N_COOL"),
